@@ -6,20 +6,21 @@ From ApiFu Require Import Base.Sexp Fut.Plan Fut.Future Fut.ExecAsync Fut.ExecSy
 Import ListNotations.
 
 (** what the plan says about a position: does it fail, its JSON, the errors that may escape it *)
-Record pspec := { ps_fails : bool; ps_json : json; ps_esc : list err }.
+Record pspec := { ps_fails : bool; ps_json : json; ps_esc : list err; ps_must : list site }.
 
 Definition spec_I (v : vplan) (p : rpath) : pspec :=
-  {| ps_fails := fails_inner v; ps_json := jv v; ps_esc := fst (cand_inner v p) |}.
+  {| ps_fails := fails_inner v; ps_json := jv v; ps_esc := fst (cand_inner v p); ps_must := must_I v p |}.
 Definition spec_W (nn : bool) (v : vplan) (p : rpath) : pspec :=
-  {| ps_fails := fails_w nn v; ps_json := jv v; ps_esc := fst (cand_nn nn p v (cand_inner v p)) |}.
+  {| ps_fails := fails_w nn v; ps_json := jv v; ps_esc := fst (cand_nn nn p v (cand_inner v p));
+     ps_must := must_I v p |}.
 Definition spec_CI (inn : bool) (x : vplan) (q : rpath) : pspec :=
   {| ps_fails := inn && fails_w true x; ps_json := jc x;
-     ps_esc := fst (cand_catch inn q (cand_nn inn q x (cand_inner x q))) |}.
+     ps_esc := fst (cand_catch inn q (cand_nn inn q x (cand_inner x q))); ps_must := must_CI inn x q |}.
 Definition spec_F (fp : fplan) (p : rpath) : pspec :=
-  {| ps_fails := fails_f fp; ps_json := jf fp; ps_esc := fst (cand_field fp p) |}.
+  {| ps_fails := fails_f fp; ps_json := jf fp; ps_esc := fst (cand_field fp p); ps_must := must_F fp p |}.
 Definition spec_CF (fp : fplan) (q : rpath) : pspec :=
   {| ps_fails := fp_nn fp && fails_f fp; ps_json := jf fp;
-     ps_esc := fst (cand_catch (fp_nn fp) q (cand_field fp q)) |}.
+     ps_esc := fst (cand_catch (fp_nn fp) q (cand_field fp q)); ps_must := must_CF fp q |}.
 
 Definition budget_I (v : vplan) (p : rpath) : ghost :=
   {| g_sites := snd (cand_inner v p); g_ids := []; g_pot := count_async_v v |}.
@@ -34,7 +35,7 @@ Definition budget_CF (fp : fplan) (q : rpath) : ghost :=
 
 Definition ResOK (G : ghe) (s : st) (sp : pspec) (r : result) : Prop :=
   match r with
-  | ROk v => ps_fails sp = false /\ val_ok G (s_maps s) v (ps_json sp)
+  | ROk v => ps_fails sp = false /\ val_ok G (s_maps s) v (ps_json sp) /\ Forall (Fired s) (ps_must sp)
   | RErr e => ps_fails sp = true /\ In e (ps_esc sp)
   end.
 
@@ -51,8 +52,9 @@ Definition fut_of (c : clo) (ro : option result) : fut :=
 (** transporting an outcome to a later state *)
 Lemma ResOK_mono G s G' s' sp r : gle G G' -> sle s s' -> ResOK G s sp r -> ResOK G' s' sp r.
 Proof.
-  intros Hg [Hh _]. destruct r as [v|e]; simpl; auto.
-  intros [A B]. split; auto. eapply val_ok_mono; eauto.
+  intros Hg Hs. pose proof Hs as (Hh & _). destruct r as [v|e]; simpl; auto.
+  intros (A & B & C). split; auto. split; [eapply val_ok_mono; eauto|].
+  eapply Forall_impl; [|exact C]. intros a. now apply Fired_mono.
 Qed.
 
 (** ** declarative facts used by the wrappers *)
@@ -81,12 +83,12 @@ Lemma nn_check_ok G s v p r :
         (match r with ROk GNil => RErr (err_at p KNullNN) | _ => r end).
 Proof.
   unfold ResOK, spec_I, spec_W, fails_w; simpl. destruct r as [gv|e].
-  - intros [F V]. destruct gv; simpl.
+  - intros (F & V & M). destruct gv; simpl.
     + apply val_ok_nil_inv in V. apply jv_null_inv in V; auto. subst v. simpl. auto.
-    + split; auto. rewrite F. simpl. destruct v; simpl; auto.
+    + split; [|auto]. rewrite F. simpl. destruct v; simpl; auto.
       simpl in V. inversion V.
-    + split; auto. rewrite F. simpl. destruct v; simpl; auto. simpl in V. inversion V.
-    + split; auto. rewrite F. simpl. destruct v; simpl; auto. simpl in V. inversion V.
+    + split; [|auto]. rewrite F. simpl. destruct v; simpl; auto. simpl in V. inversion V.
+    + split; [|auto]. rewrite F. simpl. destruct v; simpl; auto. simpl in V. inversion V.
     + inversion V.
     + inversion V.
   - intros [F I]. split; [now rewrite F|].
@@ -129,7 +131,9 @@ Lemma add_err_maps e s : s_maps (add_err e s) = s_maps s.
 Proof. reflexivity. Qed.
 
 Lemma sle_add_err e s : sle s (add_err e s).
-Proof. split; simpl; [apply hle_refl | apply proms_le_refl]. Qed.
+Proof.
+  split; simpl; [apply hle_refl | split; [apply proms_le_refl | apply incl_appl, incl_refl]].
+Qed.
 
 (** ** specifications of building and of stepping a position *)
 Definition StepSpec (L : ghe -> st -> clo -> ghost -> Prop) (sp : pspec) : Prop :=
@@ -211,6 +215,9 @@ Section Catch.
   Hypothesis sp1_json_ok : ps_fails sp0 = false -> ps_json sp1 = ps_json sp0.
   Hypothesis sp1_json_fail : nn = false -> ps_fails sp0 = true -> ps_json sp1 = JNull.
   Hypothesis sp1_esc : nn = true -> ps_esc sp1 = ps_esc sp0.
+  Hypothesis sp1_must_ok : ps_fails sp0 = false -> ps_must sp1 = ps_must sp0.
+  Hypothesis sp1_must_nn : nn = true -> ps_must sp1 = ps_must sp0.
+  Hypothesis sp1_must_fail : nn = false -> ps_fails sp0 = true -> ps_must sp1 = [x0].
 
   Definition cbud (bud0 : ghost) : ghost := if nn then bud0 else gsite x0 bud0.
 
@@ -221,13 +228,15 @@ Section Catch.
     Step G s (gsite x0 g0) G s2 g0 /\ ResOK G s2 sp1 (catch_res r).
   Proof.
     intros N I R. destruct r as [v|e]; simpl in *.
-    - destruct R as [F V]. split.
+    - destruct R as (F & V & M). split.
       + split; [apply gle_refl|]. split; [apply sle_refl|]. split; auto. apply Acct_unsite.
-      + rewrite sp1_fails, F, andb_false_r. split; auto. now rewrite sp1_json_ok.
+      + rewrite sp1_fails, F, andb_false_r. split; auto. rewrite sp1_json_ok, sp1_must_ok; auto.
     - destruct R as [F In]. split.
       + split; [apply gle_refl|]. split; [apply sle_add_err|]. split; auto.
         apply Acct_fire. exact In.
-      + rewrite sp1_fails, N. simpl. split; auto. rewrite sp1_json_fail; auto. constructor.
+      + rewrite sp1_fails, N. simpl. split; auto. rewrite sp1_json_fail, sp1_must_fail; auto.
+        split; [constructor|]. constructor; [|constructor].
+        exists e. split; [simpl; apply in_or_app; right; now left | exact In].
   Qed.
 
   Lemma Blocked_gsite s x g : Blocked s g -> Blocked s (gsite x g).
@@ -244,7 +253,7 @@ Section Catch.
     - injection E as <- <-. exists G', g'. split; auto.
       destruct f0 as [r|c]; simpl in *.
       + destruct O as [R ->]. split; auto. destruct r; simpl in *; rewrite sp1_fails, N; simpl.
-        * destruct R as [F V]. rewrite F. split; auto. now rewrite sp1_json_ok.
+        * destruct R as (F & V & M). rewrite F. split; auto. rewrite sp1_json_ok, sp1_must_nn; auto.
         * destruct R as [F V]. rewrite F. split; auto. now rewrite sp1_esc.
       + destruct O as [L B1]. split; auto.
     - destruct St as (Sg & Ss & SI & SA).
@@ -270,7 +279,7 @@ Section Catch.
     - destruct (S G s c g c' ro s' I C L' E) as (G' & g' & St & O).
       exists G', g'. split; auto. destruct ro as [r|]; simpl in *.
       + destruct O as [R ->]. split; auto. destruct r; simpl in *; rewrite sp1_fails, N; simpl.
-        * destruct R as [F V]. rewrite F. split; auto. now rewrite sp1_json_ok.
+        * destruct R as (F & V & M). rewrite F. split; auto. rewrite sp1_json_ok, sp1_must_nn; auto.
         * destruct R as [F V]. rewrite F. split; auto. now rewrite sp1_esc.
       + destruct O as [L2 B]. split; auto.
     - rewrite invoke_CMap in E. destruct (invoke FX c0 s) as [[c1 r] s1] eqn:E0.
